@@ -80,6 +80,12 @@ CHECKS.update({
          "a failure is reported only when bash satisfies the same relation on the same script and the failure reproduces in a second run; counts are sampled until stable", "DESIGN.md §3 C18"),
 })
 
+CHECKS.update({
+ "C15": ("metamorphic property testing over delivery modes (brush against itself, guarded by bash), differential testing of stdin prefixes vs bash 5.2.15, and in-process sequence testing of the parse caches against history-free references",
+         "1.5k (quick) / 25k (thorough) multi-line programs (continuations, here-documents, multi-line strings, comments, blank lines, $LINENO probes incl. inside eval and $( )) each delivered as file, -c, source, eval and stdin and required to give one stdout/status; 3k/50k line-prefixes of such programs fed on stdin from a file or a pipe (with commands that read the script's own input) compared with bash on what ran and success/failure; 40k/600k sequences of memoised tokenizer/program/word/arithmetic/pattern calls re-issuing texts under other option sets in one long-lived multi-threaded process, each result compared with its uncached twin or with a table from fresh processes. Exploration.",
+         "bash 5.2.15 reference; the delivery relation is asserted only for texts that bash -n accepts and for which bash itself prints the same for all five deliveries; top-level `return` is not generated (it legitimately differs between file and source); here-documents inside $( ) are kept out (bash 5.2 re-parses them wrongly)", "DESIGN.md §3 C15"),
+})
+
 NOT_YET = {}
 
 def hooks():
